@@ -21,6 +21,7 @@ import (
 	"github.com/ARM-software/golang-utils/utils/commonerrors"
 	"github.com/ARM-software/golang-utils/utils/filesystem"
 
+	"verif/internal/fsmon"
 	"verif/internal/lockh"
 	"verif/internal/sched"
 	"verif/internal/vrun"
@@ -133,7 +134,8 @@ func runScenario(r *vrun.Run, sc scenario, keep bool) *result {
 		} else {
 			w = lockh.NewWorld(filepath.Join(dir, sub), id, s)
 		}
-		w.KeepEvents = keep
+		w.KeepEvents = true // a schedule is a few thousand events: kept so that a refuting event comes with what led to it
+		_ = keep
 		res.w = w
 		if sc.Stream == "rand" && sc.Index%4 == 1 {
 			// one transient I/O failure (the operation is not executed and reports an error) somewhere in the life of one
@@ -275,8 +277,24 @@ func analyse(r *vrun.Run, res *result) {
 		if len(tr) > 3000 {
 			tr = tr[len(tr)-3000:]
 		}
+		// the events around the first judged foreign removal (or the tail)
 		ev := w.Events
-		if len(ev) > 400 {
+		centre := int64(-1)
+		for _, f := range foreign {
+			if f.Judged {
+				centre = f.Seq
+				break
+			}
+		}
+		if centre >= 0 {
+			var sel []fsmon.Event
+			for _, e := range ev {
+				if e.Seq >= centre-450 && e.Seq <= centre+30 {
+					sel = append(sel, e)
+				}
+			}
+			ev = sel
+		} else if len(ev) > 400 {
 			ev = ev[len(ev)-400:]
 		}
 		return map[string]any{"scenario": sc, "history": hist, "foreign_removes": foreign, "holds": holds, "incarnations": incs, "trace_tail": tr, "events_tail": ev}
